@@ -28,7 +28,7 @@ ASSUMPTIONS = [
     "syndromes (sound together with the linearity monitor) plus random real executions",
     "pyModeS.common is the pure-Python module in this configuration; the C twin is covered by C15",
 ]
-REQUIRED = ["len56", "len112", "tail_text_echoed_in_payload", "sibling_frame_seen_before", "demodulated_df17_with_faded_bits", "encode_true", "encode_false", "legacy", "contract_internal_crc"]
+REQUIRED = ["distinct_messages_pushed_through_by_4_threads", "len56", "len112", "tail_text_echoed_in_payload", "sibling_frame_seen_before", "demodulated_df17_with_faded_bits", "encode_true", "encode_false", "legacy", "contract_internal_crc"]
 
 _state = {}
 
@@ -289,7 +289,33 @@ def m_demod(ctx, case):
     ctx.hit("demodulated_df17_with_faded_bits")
 
 
-MONITORS = {"demod": m_demod, "exact": m_exact, "closure": m_closure, "linear": m_linear, "detect": m_detect,
+def m_volthreads(ctx, case):
+    """far more distinct frames than a 17-bit bounded memo holds, from 4 threads at once (see pmv/volume.py)"""
+    from .. import volume
+    import pyModeS
+
+    def mk(r):
+        n = 112 if r.random() < 0.7 else 56
+        return "%0*X" % (n // 4, r.getrandbits(n))
+
+    def oracle(name, msg):
+        n = len(msg) * 4
+        x = int(msg, 16)
+        if name == "df":
+            return min(x >> (n - 5), 24)
+        if name == "typecode":
+            return ((x >> (n - 37)) & 31) if (x >> (n - 5)) in (17, 18) and n == 112 else None
+        return bits.polymod(x, n) if name == "crc" else bits.polymod(x >> 24 << 24, n)
+
+    def tcode(m):
+        return pyModeS.typecode(m) if len(m) == 28 else None
+    # the frame-level helpers every application calls on every frame - the likeliest places for a memo
+    volume.run(ctx, [("crc", pyModeS.crc), ("crc_encode", lambda m: pyModeS.crc(m, True)), ("df", pyModeS.df), ("typecode", tcode)], mk, oracle,
+               total=case["total"])
+
+
+NO_OBSERVE = ("volthreads",)
+MONITORS = {"volthreads": m_volthreads, "demod": m_demod, "exact": m_exact, "closure": m_closure, "linear": m_linear, "detect": m_detect,
             "checkmsg": m_checkmsg, "contract": m_contract, "syndrome5": m_syndrome5}
 OPTIONAL_MONITORS = ("syndrome5",)
 
@@ -305,6 +331,8 @@ def cases(ctx):
     rng = ctx.rng
     quick = ctx.tier == "quick"
     i = 0
+    if ctx.mine(5):
+        yield "volthreads", {"total": 72000 if quick else 200000}      # x 2 call forms = 144000 distinct memo keys
     # --- exact: structured frames first (seed independent)
     structured = []
     for n in (56, 112):
